@@ -175,11 +175,12 @@ func (c *c08) isolationCase(r *fw.Rec, rng *rand.Rand, fam c08Family) {
 	close(start)
 	done := make(chan struct{})
 	go func() { wg.Wait(); close(done) }()
-	select {
-	case <-done:
-	case <-time.After(60 * time.Second):
-		r.Violate("isolation:deadlock:"+fam.name, "concurrent clone executions did not finish within 60 s", map[string]interface{}{"script": fam.src})
+	switch fw.WaitOrHang(done, 60*time.Second) {
+	case "hang":
+		r.Violate("isolation:deadlock:"+fam.name, "concurrent clone executions did not finish (blocked for 60 s, or 60 s of CPU time spent)", map[string]interface{}{"script": fam.src})
 		panic("verif: worker abandoned after a hang")
+	case "inconclusive":
+		fw.AbandonInconclusive("concurrent clone executions had not finished after 1200 s on a loaded machine")
 	}
 	tengo.VerifYield = nil
 	// sequential baseline AFTER the concurrent phase (so that lazily initialised
